@@ -20,6 +20,13 @@ Three ways pi is exercised on every history:
       fetch_table data, validated against it) apply the bundle under EVERY pi when the permutation
       space of the bundle is <= 120 (<= 5 dirty nodes), 24 sampled ones otherwise;
   (c) whole-document recalculation: load + Calculate under sampled pi (all formula nodes dirty).
+Trigger-formula columns (data columns with recalcWhen / recalcDeps) get shapes of their own: seed
+document c06_trigger_rows (formulas reading SEVERAL ROWS of a trigger column in one access, next to
+single-row readers), role-based multi-action bundles around one trigger column and its recalc
+dependencies (C06Monitor.trigger_update: rows left clean / dirty / dirty-but-exempt by one bundle),
+formulas reading several rows added on the fly (multi_row_reader); c06_trigger_sum reads them through
+summary-table groups ($group.tot).  Three trigger documents are
+explored a second time with the mix narrowed to these shapes (seed names ending in _focus).
 Bounded: seeded random histories; never a proof."""
 import itertools
 import math
@@ -327,6 +334,24 @@ MY_SEEDS = {
       {"p": [1, 1, 1, 2], "q": [1, 2, 3, 4], "price": [10, 20, 30, 40], "k": ["a", "a", "b", "a"],
        "peers": [["L", 2, 3], ["L", 1, 3, 4], None, ["L", 1, 2]]}]],
   ],
+  "c06_trigger_sum": [   # trigger-formula columns read through summary-table groups ($group.tot:
+                         # several rows in one access) and a same-table lookup; 5 rows
+                         # (col refs of T: manualSort 1, a 2, b 3, grp 4, tot 5, cnt 6)
+    [["AddTable", "T", [_col("a", "Int"), _col("b", "Int"), _col("grp", "Text"),
+                        _col("tot", "Int", "($a or 0) + ($b or 0)", isFormula=False),
+                        _col("cnt", "Int", "(value or 0) + 1", isFormula=False),
+                        _col("dbl", "Any", "($tot or 0) * 2"),
+                        _col("grp_tot", "Any", "sum(v or 0 for v in T.lookupRecords(grp=$grp).tot)")]]],
+    [["UpdateRecord", "_grist_Tables_column", 5, {"recalcWhen": 0, "recalcDeps": ["L", 2, 3]}],
+     ["UpdateRecord", "_grist_Tables_column", 6, {"recalcWhen": 0, "recalcDeps": ["L", 2]}]],
+    [["BulkAddRecord", "T", [None] * 5, {"a": [1, 2, 3, 4, 5], "b": [10, 20, 30, 40, 50],
+                                         "grp": ["x", "x", "y", "x", "y"]}]],
+    [["CreateViewSection", 1, 0, "record", [4], None]],          # summary by grp
+    [["AddColumn", "T_summary_grp", "stot", {"type": "Any", "isFormula": True,
+                                             "formula": "SUM(v or 0 for v in $group.tot)"}],
+     ["AddColumn", "T_summary_grp", "cnts", {"type": "Any", "isFormula": True,
+                                             "formula": "list($group.cnt)"}]],
+  ],
   "c06_lookup_cycle": [
     [["AddTable", "A", [_col("n", "Int"), _col("k", "Any", "len(A.lookupRecords(k=$n))"),
                         _col("m", "Any", "A.lookupOne(n=$n + 1).m"),
@@ -335,6 +360,11 @@ MY_SEEDS = {
   ],
 }
 gen.SEEDS.update(MY_SEEDS)
+# "<doc>_focus": the same seed document, explored with the mix narrowed to the trigger shapes
+# (role-based multi-action updates around a trigger column, formulas reading several of its rows)
+FOCUS = "_focus"
+for _name in ("c06_trigger_rows", "c06_trigger_sum", "trigger_deps"):
+  gen.SEEDS[_name + FOCUS] = gen.SEEDS[_name]
 
 CYCLE_FORMULAS = [
   "$a", "$b", "$c", "$d", "$f", "$n", "$x", "$y", "$z", "$k", "$m", "$p", "$g",
@@ -356,7 +386,8 @@ CYCLE_FORMULAS = [
 
 class C06Monitor(explore.Monitor):
   seeds = ("c06_cycle", "c06_cross", "c06_rows", "c06_lookup_cycle", "c06_trigger", "trigger_deps",
-           "basic", "refs", "lookup", "summary", "c06_trigger_rows")
+           "basic", "refs", "lookup", "summary", "c06_trigger_rows", "c06_trigger_sum",
+           "c06_trigger_rows" + FOCUS, "c06_trigger_sum" + FOCUS, "trigger_deps" + FOCUS)
   length = 4
   weights = {"modify_formula": 12, "add_formula_col": 8, "to_formula": 4, "update": 14,
              "bulk_update": 8, "add": 8, "remove": 5, "multi": 8, "invalid": 1, "view": 0,
@@ -411,41 +442,78 @@ class C06Monitor(explore.Monitor):
       if trig and tabs[t][1]: cands.append((t, trig))
     return tabs, cands
 
+  def recalc_deps(self, e, t, trig, data):
+    """{trigger column id: ids of the data columns of t whose edits make it recalculate} from the
+    metadata: recalcWhen 0 -> the columns listed in recalcDeps, 2 -> every data column, 1 -> none."""
+    by_ref = {r["id"]: r for r in eng.meta_records(e, "_grist_Tables_column")}
+    tref = eng.table_ref(e, t)
+    mine = {r["colId"]: r for r in by_ref.values() if r["parentId"] == tref}
+    data_ids = [c[0] for c in data]
+    out = {}
+    for c in trig:
+      rec = mine.get(c[0]) or {}
+      when, deps = rec.get("recalcWhen"), rec.get("recalcDeps")
+      if when == 2:
+        out[c[0]] = list(data_ids)
+      elif when == 0 and isinstance(deps, (list, tuple)):
+        ids = [by_ref[d]["colId"] for d in deps if d in by_ref]
+        out[c[0]] = [i for i in ids if i in data_ids]
+      else:
+        out[c[0]] = []
+    return out
+
   def trigger_update(self, e, g):
     """A bundle of 1-3 UpdateRecord / BulkUpdateRecord actions on a table with trigger-formula
-    columns.  Each action either edits plain data columns only (the trigger columns of those rows
-    get recalculated) or sets trigger-formula columns explicitly TOGETHER with other data columns
-    of the row (the shape the undo of a plain edit has: the explicitly set cells are exempt from
-    recalculation for the rest of that user action).  With several actions the rows of one trigger
-    column end the bundle in DIFFERENT states - recalculated, dirty, exempt -, which is what a
-    formula reading several rows of that column at once has to cope with."""
+    columns, focused on one trigger column c and the data columns it recalculates on (read from
+    recalcWhen / recalcDeps).  Every row is given one of four roles and the bundle is built from
+    the roles:
+      U untouched;
+      D an earlier action edits a dependency of c (c is dirty, to be recalculated);
+      E an earlier action sets c explicitly together with a dependency (exempt only during that
+        action, dirty afterwards);
+      L the LAST action touches the row: it sets c explicitly together with a dependency (the shape
+        the undo of a plain edit has: dirty but exempt from recalculation until the bundle ends),
+        or sets c alone, or edits a dependency alone.
+    So the rows of c end the bundle in DIFFERENT states - clean, dirty, dirty-but-exempt -, which
+    is what a formula reading several rows of c in one access has to cope with."""
     rng = g.rng
     tabs, cands = self.trigger_tables(e, g)
     if not cands: return None
     t, trig = rng.choice(cands)
     data = [c for c in tabs[t][0] if not c[2] and not c[3] and c[0] != "manualSort"]
-    rows = tabs[t][1]
-    n_actions = rng.choice([1, 2, 2, 3])
-    acts = []
-    for k in range(n_actions):
-      last = k == n_actions - 1
-      override = rng.random() < (0.75 if last else 0.3) or not data
-      cols = rng.sample(data, min(len(data), rng.randint(1, 2)))
-      if override:
-        cols = rng.sample(trig, rng.randint(1, len(trig))) + cols
-      vals = {}
-      for c in cols:
-        pool = gen.values_for(c[1], rng, e, g.rows_of(e))
-        if rng.random() < 0.7:      # mostly well-typed values: errors hide differences
-          pool = [v for v in pool if v is not None and not isinstance(v, (str, bool))
-                  or c[1] not in ("Int", "Numeric")] or pool
-        vals[c[0]] = rng.choice(pool)
-      if rng.random() < 0.65:
-        acts.append(["UpdateRecord", t, rng.choice(rows), vals])
-      else:
-        rs = rng.sample(rows, rng.randint(1, len(rows)))
-        acts.append(["BulkUpdateRecord", t, rs, {k_: [v] * len(rs) for k_, v in vals.items()}])
-    return acts
+    by_id = {c[0]: c for c in tabs[t][0]}
+    deps = self.recalc_deps(e, t, trig, data)
+    focus = rng.choice([c for c in trig if deps[c[0]]] or trig)
+    fdeps = [by_id[i] for i in deps[focus[0]]] or data
+    rows = list(tabs[t][1])
+    if len(rows) > 5: rows = sorted(rng.sample(rows, 5))
+    role = {r: rng.choice("UUUDDDELLL") for r in rows}
+    if not any(v in "DL" for v in role.values()):
+      role[rng.choice(rows)] = rng.choice("DL")
+    def value(c):
+      pool = gen.values_for(c[1], rng, e, g.rows_of(e))
+      if rng.random() < 0.8:      # mostly well-typed values: error cells hide differences
+        pool = [v for v in pool if v is not None and not isinstance(v, (str, bool))
+                or c[1] not in ("Int", "Numeric")] or pool
+      return rng.choice(pool)
+    def action(rs, cols):
+      cols = list(cols)
+      if data and rng.random() < 0.2: cols.append(rng.choice(data))
+      if not rs or not cols: return []
+      if len(rs) == 1:
+        return [["UpdateRecord", t, rs[0], {c[0]: value(c) for c in cols}]]
+      if rng.random() < 0.3:        # one UpdateRecord per row instead of a bulk action
+        return [["UpdateRecord", t, r, {c[0]: value(c) for c in cols}] for r in rs]
+      return [["BulkUpdateRecord", t, rs, {c[0]: [value(c) for _ in rs] for c in cols}]]
+    others = [c for c in trig if c is not focus and rng.random() < 0.25]
+    dep = lambda: [rng.choice(fdeps)] if fdeps else []
+    early = [action([r for r in rows if role[r] == "D"], dep()),
+             action([r for r in rows if role[r] == "E"], [focus] + others + dep())]
+    rng.shuffle(early)
+    last_kind = rng.choice(["set+dep"] * 6 + ["set"] * 2 + ["dep"] * 2)
+    last_cols = {"set+dep": [focus] + others + dep(), "set": [focus] + others, "dep": dep()}[last_kind]
+    last = action([r for r in rows if role[r] == "L"], last_cols)
+    return (early[0] + early[1] + last) or None
 
   def multi_row_reader(self, e, g):
     """AddColumn / ModifyColumn giving some formula column a formula that reads SEVERAL ROWS of a
@@ -481,11 +549,14 @@ class C06Monitor(explore.Monitor):
   def gen_bundle(self, st, e, g):
     r = g.rng.random()
     has_trigger = bool(self.trigger_tables(e, g)[1])
+    if st.get("focus") and has_trigger and r < 0.9:
+      b = self.trigger_update(e, g) if r < 0.75 else self.multi_row_reader(e, g)
+      if b: return b
     # documents with trigger-formula columns get the trigger shapes much more often
     if r > (0.5 if has_trigger else 0.8):
       b = self.multi_row_reader(e, g) if (has_trigger and r > 0.92) else self.trigger_update(e, g)
       if b: return b
-    if r < 0.3:
+    if r < (0.12 if has_trigger else 0.3):     # (fewer formula rewrites where the trigger shapes apply)
       tabs = g.doc(e)
       dts = g.data_tables(tabs)
       if dts:
@@ -506,7 +577,8 @@ class C06Monitor(explore.Monitor):
 
   # -- ghost state ------------------------------------------------------------------------------
   def start(self, e, seed_name):
-    st = {"shadows": [], "skipped_forks": 0, "perm_runs": 0, "rng": random.Random(common.seed())}
+    st = {"shadows": [], "skipped_forks": 0, "perm_runs": 0, "rng": random.Random(common.seed()),
+          "focus": seed_name.endswith(FOCUS)}
     for strat in (Strategy("reverse"), Strategy("random", seed=common.seed() + 1)):
       try:
         f, _ = fork_by_load(e)
@@ -656,7 +728,12 @@ def main():
   rep.assumptions += [
     common.SHIM_ASSUMPTION,
     "bounded: seeded random histories (vlib/rtc/gen.py alphabet plus cycle-creating formula edits) "
-    "over 10 seed documents, 3 of them with circular references, one with cross-row dependencies, two with trigger-formula columns (recalcDeps); not a proof",
+    "over 12 seed documents, 3 of them with circular references, one with cross-row dependencies, "
+    "four with trigger-formula columns (recalcDeps), two of these with formulas that read several "
+    "rows of a trigger column at once (record-set attributes, summary-table groups); three trigger "
+    "documents are explored twice, the second "
+    "time (seed name *_focus) with 75% role-based multi-action trigger updates and 15% added "
+    "multi-row readers; not a proof",
     "the ghost parameter pi permutes the list returned by the real Engine._make_sorted_work_items "
     "(wrapped at class level) keeping '#lookup' items at the end of the list (popped first), which "
     "is the engine's own rule; nested re-ordering driven by OrderError is the engine's own",
@@ -678,7 +755,7 @@ def main():
   stats_dir = tempfile.mkdtemp(prefix="verif-c06-")
   os.environ["C06_STATS_DIR"] = stats_dir
   try:
-    explore.explore(rep, "checks.C06", "C06Monitor", n_quick=48, n_thorough=2400,
+    explore.explore(rep, "checks.C06", "C06Monitor", n_quick=112, n_thorough=2800,
                     budget_quick_s=25, budget_thorough_s=800)
     tot = Counter()
     for p in glob.glob(os.path.join(stats_dir, "*.json")):
